@@ -460,7 +460,7 @@ def apply(state, name, desc, other=None):
             else:
                 s["genes"][new] = s["genes"].pop(old)
             for gid, g in s["groups"].items():
-                if ("Gene", old) in g["members"]:
+                if g["members"] != "unspecified" and ("Gene", old) in g["members"]:
                     T["groups"].add(gid)
                     g["members"] = "unspecified"  # documentation silent on groups here
         for rid, r in s["reactions"].items():
